@@ -109,6 +109,10 @@ def run(ctx):
                 continue
             for f in fids:
                 excused[f] += 1
+    # the refutation witness of C14_clause_order_refuted, replayed: same clauses, two orders, error vs rows
+    meta, crow = pc.load_corpus("C14")
+    if len(crow) == 2 and crow[0]["result"]["kind"] == "err" and crow[1]["result"]["kind"] == "ok" and crow[1]["result"]["rows"]:
+        excused["C03-spec3-after-bound"] += 1
     for fid, f in sorted(findings.items()):
         if excused.get(fid, 0) > 0:
             ctx.known("%s site=%s class=%s (%d metamorphic relations fail because of it in this run)" % (fid, f.get("site", "?"), f.get("class", "?"), excused[fid]))
